@@ -181,7 +181,7 @@ def main():
         coverage["engines"]["rt"] = {"cases": res["n_cases"], "groups": res["n_groups"], "events_total": res["events"],
                                      "events_for_property": cov["events"], "cases_for_property": cov["cases"],
                                      "case_kinds": res["kinds"], "compile_failures": len(res["failed"]),
-                                     "aborted_calls": res["aborts"], "miri": res.get("miri"), "tlc": res["tlc"], "wall_s": res.get("engine_wall_s")}
+                                     "aborted_calls": res["aborts"], "miri": res.get("miri"), "optimised_build": res.get("release"), "tlc": res["tlc"], "wall_s": res.get("engine_wall_s")}
         for sig, g in groups.items():
             k = known_match(prop, g["facts"], known)
             labels = ", ".join(f"{k} x{n}" for k, n in g["labels"].most_common(6))
